@@ -530,6 +530,7 @@ impl Check for C04 {
             PhaseSpec { name: "nesting", cases: tier.pick(3_000, 60_000), max_bytes: 300, exhaustive: false },
             // unclosed nestings of every depth followed by another item (quick: every 5th case)
             PhaseSpec { name: "unwind", cases: crate::textgen::unwind_count() / tier.pick(5, 1), max_bytes: 0, exhaustive: true },
+            PhaseSpec { name: "mlstring", cases: crate::textgen::mlstring_count(), max_bytes: 0, exhaustive: true },
             PhaseSpec { name: "repeat", cases: crate::textgen::repeat_count() / tier.pick(3, 1), max_bytes: 0, exhaustive: true },
             PhaseSpec { name: "artifacts", cases: tier.pick(4_000, 80_000), max_bytes: 48, exhaustive: false },
             // package directories as a file system can present them (odd entries, unreadable text)
@@ -550,6 +551,7 @@ impl Check for C04 {
             "tokens" => Case::new(json!({"text": textgen::token_soup(&mut d)})),
             "mutate" => Case::new(json!({"text": textgen::mutate_corpus(&mut d, corpus::sources())})),
             "nesting" => Case::new(json!({"text": nested(&mut d)})),
+            "mlstring" => Case::new(json!({"text": crate::textgen::mlstring_text(index)})),
             "unwind" => Case::new(json!({"text": crate::textgen::unwind_text(if ctx.tier == Tier::Thorough { index } else { index * 5 + ctx.seed % 5 })})),
             "prog" | "illprog" => {
                 // every shape, including the ones other checks exclude because of open findings
@@ -565,6 +567,7 @@ impl Check for C04 {
                     crate::gen::build::Focus::Traits,
                 ][(index % 6) as usize];
                 cfg.traits = index % 2 == 1 || cfg.focus == crate::gen::build::Focus::Traits;
+                cfg.discards = index % 3 != 0;
                 if phase == "prog" {
                     let p = crate::gen::build::gen_program(&mut d, cfg, &mut open);
                     Case::new(json!({"text": crate::gen::render::render(&p), "prog": true}))
